@@ -133,7 +133,7 @@ def run_case(tier, seed, i):
         # (b) rescale all quantitative features by positive powers of two (exact)
         X3 = X.copy()
         for g in quant:
-            X3[g] = X3[g] * gen.pick(rng, [2.0, 0.5, 1024.0])
+            X3[g] = X3[g] * gen.pick(rng, [2.0, 0.5, 1024.0, 2.0 ** -30, 2.0 ** 30, 1e-9, 1e6])
         r, e = common.guarded(do_select, cls, X3, y, quant, qual, n_best, kw)
         if e is None:
             compare("rescale", r)
